@@ -350,7 +350,7 @@ def work_mirror(bins, cases):
 def run(ctx):
     quick = ctx.tier == "quick"
     nshards = 32
-    nstarts = 80 if quick else 2500
+    nstarts = 280 if quick else 3000
     per = 6 if quick else 10
     res = core.pmap(work, [(ctx.bins, "%s/%d/%d" % (ctx.prop, ctx.seed, i), nstarts, per) for i in range(nshards)])
     mirror = []
